@@ -176,7 +176,7 @@ def histories(draw, o=None):
     kinds = []
     for k, dflt in (("cmd", 40), ("edit", 16), ("touch", 4), ("rmtarget", 8), ("setdo", 8), ("adddo", 4),
                     ("rmdo", 3), ("mkpath", 5), ("rmpath", 3), ("ext", 4), ("failflag", 6), ("query", 0),
-                    ("mwrite", 0), ("mreplace", 0), ("mremove", 0), ("redo", 8), ("stampflag", 0), ("crash", 0), ("usermodflag", 0), ("dropdep", 0)):
+                    ("mwrite", 0), ("mreplace", 0), ("mremove", 0), ("redo", 8), ("stampflag", 0), ("crash", 0), ("usermodflag", 0), ("dropdep", 0), ("msymlink", 0)):
         kinds += [k] * w.get(k, dflt)
     ops = []
     # locality: with probability p_focus an operation that names a target names one of 1-2 "focus" targets, so that
@@ -311,7 +311,7 @@ def histories(draw, o=None):
         elif k == "query":
             ops.append(["query", draw(st.sampled_from(["ood", "targets", "sources"])),
                         _pick(draw, dirs) if draw(st.integers(0, 99)) < 30 else ""])
-        elif k in ("mwrite", "mreplace", "mremove"):
+        elif k in ("mwrite", "mreplace", "mremove", "msymlink"):
             ops.append([k, pick_target()])
     cfg = {"log": draw(st.integers(0, 1)), "keep_going": 0}
     if o.get("edit_variants", 3) != 3:
